@@ -223,12 +223,18 @@ def r3_merge_with_int(ctx):
         f = method(p, HASHER, ty, "merge_with_int")
         short = ty.split("::")[-1]
         site = None
+        site_op = None
         for cs in cmp_sites(f):
-            if cs["op"] not in ("Lt", "Ge"):
+            if cs["op"] not in ("Lt", "Ge", "Gt", "Le"):
                 continue
             ca, cb = op_const(cs["a"]), op_const(cs["b"])
-            if cb is not None and "v" in cb and int(cb["v"]) in mods and op_local(cs["a"]) is not None and 2 in f.copy_chain(op_local(cs["a"])):
-                site = cs
+            if cb is not None and "v" in cb and int(cb["v"]) in mods and op_local(cs["a"]) is not None and 2 in f.copy_chain(op_local(cs["a"])) \
+                    and cs["op"] in ("Lt", "Ge"):
+                site, site_op = cs, cs["op"]
+            # MODULUS > value  /  MODULUS <= value
+            if ca is not None and "v" in ca and int(ca["v"]) in mods and op_local(cs["b"]) is not None and 2 in f.copy_chain(op_local(cs["b"])) \
+                    and cs["op"] in ("Gt", "Le"):
+                site, site_op = cs, {"Gt": "Lt", "Le": "Ge"}[cs["op"]]
         if site is None:
             ctx.ob("R3", "int-range-branch:%s" % short, False, "merge_with_int does not branch on `value < MODULUS`", f)
             continue
@@ -236,8 +242,8 @@ def r3_merge_with_int(ctx):
         if not chk:
             ctx.ob("R3", "int-range-branch:%s" % short, False, "the comparison `value < MODULUS` is not branched on", f)
             continue
-        small = chk[0]["true_edges"] if site["op"] == "Lt" else chk[0]["false_edges"]
-        large = chk[0]["false_edges"] if site["op"] == "Lt" else chk[0]["true_edges"]
+        small = chk[0]["true_edges"] if site_op == "Lt" else chk[0]["false_edges"]
+        large = chk[0]["false_edges"] if site_op == "Lt" else chk[0]["true_edges"]
         rs = f.reach([t for _, t in small])
         rl = f.reach([t for _, t in large])
         only_s, only_l = rs - rl, rl - rs
@@ -259,6 +265,46 @@ def r3_merge_with_int(ctx):
             return out
         cs_, cl_ = const_stores(only_s), const_stores(only_l)
         differ = [c for c in cs_ if c in cl_ and cs_[c] != cl_[c]]
+        if not differ:
+            # `let tag = if value < M { a } else { b }; state[cell] = new(tag)`: one store after the join
+            # whose value has one constant definition in each branch
+            for bi, st in state_stores(f):
+                if bi in only_s or bi in only_l or st["rv"][0] != "use" or op_local(st["rv"][1]) is None:
+                    continue
+                idx = int(st["p"][1][2:-1]) if st["p"][1].startswith("[_") else None
+                ci = eval_index(p, an, f, ["cp", [idx]], st["_pos"]) if idx is not None else None
+                for d in f.defs(op_local(st["rv"][1])):
+                    if d["kind"] != "call" or (callee_of(d["term"]) or {}).get("name") != "new":
+                        continue
+                    al = op_local(d["term"]["a"][0])
+                    if al is None:
+                        continue
+                    vs, vl = set(), set()
+                    for x in f.copy_chain(al):
+                        for dd in f.defs(x):
+                            if dd["kind"] != "assign":
+                                continue
+                            v = eval_index(p, an, f, ["cp", [x]], (dd["bb"], f.INF)) if False else None
+                            # evaluate the defining rvalue itself
+                            rv = dd["rv"]
+                            val = None
+                            if rv[0] == "use":
+                                val = eval_index(p, an, f, rv[1], (dd["bb"], 0))
+                            elif rv[0] == "cast":
+                                val = eval_index(p, an, f, rv[2], (dd["bb"], 0))
+                            elif rv[0] == "bin":
+                                a_, b_ = eval_index(p, an, f, rv[2], (dd["bb"], 0)), eval_index(p, an, f, rv[3], (dd["bb"], 0))
+                                if a_ is not None and b_ is not None and rv[1].startswith(("Add", "Sub")):
+                                    val = a_ + b_ if rv[1].startswith("Add") else a_ - b_
+                            if val is None:
+                                continue
+                            if dd["bb"] in only_s:
+                                vs.add(val)
+                            elif dd["bb"] in only_l:
+                                vl.add(val)
+                    if ci is not None and len(vs) == 1 and len(vl) == 1 and vs != vl:
+                        cs_[ci], cl_[ci] = vs.pop(), vl.pop()
+                        differ = [ci]
         ctx.ob("R3", "int-range-branch:%s" % short, bool(differ),
                "value < MODULUS and value >= MODULUS write different domain constants (%s vs %s) into state cell %s" % (
                    cs_[differ[0]], cl_[differ[0]], differ[0]) if differ else
